@@ -702,7 +702,12 @@ func calAndSetShortCircuit(e *Expr) {
 
 func calAndSetShortCircuitForRCO(e *Expr) {
 	for i, n := range e.nodes {
-		p, _ := parentNode(e, int16(i))
+		p, pIdx := parentNode(e, int16(i))
+		// the branches of an if node yield the value of the if node itself
+		for c := int16(i); p != nil && p.getNodeType() == cond && c > pIdx; {
+			c = pIdx
+			p, pIdx = parentNode(e, pIdx)
+		}
 		switch {
 		case p == nil:
 			continue
